@@ -50,9 +50,8 @@ func main() {
 	start := time.Now()
 	abs, _ := filepath.Abs(*repo)
 	archs := []string{*goarch}
-	if *tier == "thorough" && *goarch == "" {
-		archs = []string{"", "386"}
-	}
+	// Note: the repository does not type-check for 32-bit targets (message/header.go compares an int
+	// with 0xFFFFFFFF), so every successful build has a 64-bit int; there is no 386 tier.
 	kf, err := lint.LoadKnown(*known)
 	if err != nil {
 		fmt.Println("CANNOT-DECIDE:", err)
